@@ -114,7 +114,11 @@ def step (debug : Bool) (st : St) (args : List String) : St × String :=
     | _ => ({ l := none }, "bad-op")
   | "new" :: "rm" :: rest =>
     match ints? rest with
-    | some [units, grain, heads, ppb, limitPages] =>
+    | some [units, grain, heads, ppb0, limitPages0] =>
+      -- `-1` = the code's own derivation (what Map64::create_parent_freelist passes):
+      -- limit = size_in_pages(units, heads) pages, block = default_block_size(units, heads)
+      let limitPages := if limitPages0 < 0 then sizeInPages units heads else limitPages0
+      let ppb := if ppb0 < 0 then defaultBlockSize units heads else ppb0
       -- addresses relative to an arbitrary page-aligned base far from 0 and 2^64
       let base : Nat := 1099511627776
       ({ l := some (.rm (RM.new base (base + limitPages.toNat * 4096) ppb units grain heads)) }, "ok")
